@@ -18,7 +18,7 @@ import (
 
 // C06 — version negotiation.  One request line per session:
 //
-//	<sid> <cmax> <r1> <r2> [T<ms>] [C]
+//	<sid> <cmax> <r1> <r2> [T<ms>] [C] [K1] [K2] [LA]
 //
 // cmax: 1|2 (WithVersion).  r1/r2: how the scripted reader answers GET_SUPPORTED_VERSION /
 // SET_PROTOCOL_VERSION:
@@ -33,10 +33,14 @@ import (
 //	N                 no reply
 //
 // T<ms>: the client is built WithTimeout(ms).  C: on N the reader closes the connection.
+// K1: the reader sends a KEEPALIVE when it has received GET_SUPPORTED_VERSION and answers the
+// query only after the KEEPALIVE_ACK has arrived; K2: the same for SET_PROTOCOL_VERSION.
+// LA: the traffic after negotiation starts with a KEEPALIVE (see below).
 //
-// When Connect proceeds the harness sends GET_READER_CONFIG (header only) and
-// GET_READER_CAPABILITIES (1 byte payload) through SendMessage and the reader sends one
-// KEEPALIVE; the reader records every frame it receives.
+// When Connect proceeds: GET_READER_CONFIG (header only, SendMessage), KEEPALIVE from the reader,
+// GET_READER_CAPABILITIES (1 byte payload, SendMessage); with LA: KEEPALIVE, GET_READER_CONFIG,
+// KEEPALIVE, GET_READER_CAPABILITIES.  Each step waits for the previous one to complete.  The
+// reader records every frame it receives.
 //
 // Answer line:
 //
@@ -107,9 +111,15 @@ func c06Status(st int) []byte {
 }
 
 type c06Peer struct {
-	conn   net.Conn
-	r1, r2 string
+	conn           net.Conn
+	r1, r2         string
 	closeOnSilence bool
+	k1, k2         bool
+	replyType2     int // if non-zero, GET_READER_CONFIG is answered with a header-only frame of this type
+
+	pmu       sync.Mutex
+	pendingID uint32
+	pending   func()
 
 	mu     sync.Mutex
 	wmu    sync.Mutex
@@ -130,7 +140,14 @@ func (p *c06Peer) put(ver, typ int, id uint32, payload []byte) {
 	_ = c06Put(p.conn, ver, typ, id, payload)
 }
 
+// c06Settle is how long the reader waits before it answers a negotiation message: long enough
+// for the client's write loop to have finished with the frame it just wrote and to be parked
+// again, so that what the loop holds across its blocking point is what it held BEFORE the answer
+// changed the client's version (the observed order is then the script order).
+const c06Settle = 1500 * time.Microsecond
+
 func (p *c06Peer) react(f c06Frame, r string, respType int, versions bool) {
+	time.Sleep(c06Settle)
 	parts := strings.Split(r, ":")
 	num := func(i int) int { n, _ := strconv.Atoi(parts[i]); return n }
 	switch parts[0] {
@@ -167,6 +184,34 @@ func (p *c06Peer) react(f c06Frame, r string, respType int, versions bool) {
 	}
 }
 
+// maybeKeepAlive answers a negotiation message: directly, or (ka) by first sending a KEEPALIVE
+// and answering when its acknowledgement has been read (or after 1 s, so that a missing ack shows
+// up as a missing frame, not as a stuck session)
+func (p *c06Peer) maybeKeepAlive(ka bool, id uint32, answer func()) {
+	if !ka {
+		answer()
+		return
+	}
+	p.pmu.Lock()
+	p.pendingID, p.pending = id, answer
+	p.pmu.Unlock()
+	p.put(2, 62, id, nil)
+	time.AfterFunc(time.Second, func() { p.runPending(id) })
+}
+
+func (p *c06Peer) runPending(id uint32) bool {
+	p.pmu.Lock()
+	fn := p.pending
+	if fn == nil || p.pendingID != id {
+		p.pmu.Unlock()
+		return false
+	}
+	p.pending = nil
+	p.pmu.Unlock()
+	fn()
+	return true
+}
+
 func (p *c06Peer) run() {
 	defer close(p.done)
 	// ReaderEventNotification: ReaderEventNotificationData{UTCTimestamp, ConnectionAttemptEvent=Success}
@@ -182,18 +227,26 @@ func (p *c06Peer) run() {
 		p.mu.Unlock()
 		switch f.typ {
 		case 46:
-			p.react(f, p.r1, 56, true)
+			f := f
+			p.maybeKeepAlive(p.k1, 801, func() { p.react(f, p.r1, 56, true) })
 		case 47:
-			p.react(f, p.r2, 57, false)
+			f := f
+			p.maybeKeepAlive(p.k2, 802, func() { p.react(f, p.r2, 57, false) })
 		case 72:
-			select {
-			case p.acks <- f:
-			default:
+			if !p.runPending(f.id) {
+				select {
+				case p.acks <- f:
+				default:
+				}
 			}
 		case 1:
 			p.put(f.ver, 11, f.id, c06Status(0))
 		case 2:
-			p.put(f.ver, 12, f.id, c06Status(0))
+			if p.replyType2 != 0 {
+				p.put(f.ver, p.replyType2, f.id, nil)
+			} else {
+				p.put(f.ver, 12, f.id, c06Status(0))
+			}
 		default:
 			p.put(f.ver, 100, f.id, c06Status(109))
 		}
@@ -209,7 +262,16 @@ func c06Session(line string) string {
 	cmax, _ := strconv.Atoi(f[1])
 	timeout := time.Duration(0)
 	closeOnSilence := false
+	k1, k2, ackFirst := false, false, false
 	for _, o := range f[4:] {
+		switch o {
+		case "K1":
+			k1 = true
+		case "K2":
+			k2 = true
+		case "LA":
+			ackFirst = true
+		}
 		if strings.HasPrefix(o, "T") {
 			ms, _ := strconv.Atoi(o[1:])
 			timeout = time.Duration(ms) * time.Millisecond
@@ -221,7 +283,7 @@ func c06Session(line string) string {
 	cConn, pConn := net.Pipe()
 	// nothing the scripted reader does may block for good, whatever the client does
 	_ = pConn.SetDeadline(time.Now().Add(10 * time.Second))
-	peer := &c06Peer{conn: pConn, r1: f[2], r2: f[3], closeOnSilence: closeOnSilence,
+	peer := &c06Peer{conn: pConn, r1: f[2], r2: f[3], closeOnSilence: closeOnSilence, k1: k1, k2: k2,
 		acks: make(chan c06Frame, 4), done: make(chan struct{})}
 	go peer.run()
 
@@ -271,22 +333,31 @@ func c06Session(line string) string {
 			}
 			return "ok"
 		}
+		keepAlive := func(id uint32) {
+			if ack == "missing" || ack == "wrong-id" {
+				return
+			}
+			peer.put(1, 62, id, nil)
+			select {
+			case a := <-peer.acks:
+				if a.id == id {
+					ack = "ok"
+				} else {
+					ack = "wrong-id"
+				}
+			case <-time.After(3 * time.Second):
+				ack = "missing"
+			}
+		}
+		if ackFirst {
+			keepAlive(776)
+		}
 		t1, _, err := client.SendMessage(ctx, MsgGetReaderConfig, nil)
 		req1 = cls(t1, MsgGetReaderConfigResponse, err)
+		keepAlive(777)
 		t2, _, err := client.SendMessage(ctx, MsgGetReaderCapabilities, []byte{0})
 		req2 = cls(t2, MsgGetReaderCapabilitiesResponse, err)
 		cancel()
-		peer.put(1, 62, 777, nil)
-		select {
-		case a := <-peer.acks:
-			if a.id == 777 {
-				ack = "ok"
-			} else {
-				ack = "wrong-id"
-			}
-		case <-time.After(3 * time.Second):
-			ack = "missing"
-		}
 	}
 	all := peer.seen()
 
@@ -309,16 +380,51 @@ func c06Session(line string) string {
 		c06Frames(all[len(before):]), req1, req2, ack)
 }
 
+// c06Delivered reports whether a header-only frame of type typ that carries the id of an
+// outstanding request is handed to the caller as its reply (differential probe of the tree)
+func c06Delivered(typ int) bool {
+	cConn, pConn := net.Pipe()
+	_ = pConn.SetDeadline(time.Now().Add(10 * time.Second))
+	peer := &c06Peer{conn: pConn, r1: "N", r2: "N", replyType2: typ, acks: make(chan c06Frame, 4), done: make(chan struct{})}
+	go peer.run()
+	client := NewClient(WithVersion(Version1_0_1), WithLogger(nil))
+	connDone := make(chan struct{})
+	go func() {
+		defer close(connDone)
+		defer func() { _ = recover() }()
+		_ = client.Connect(cConn)
+	}()
+	ctx, cancel := context.WithTimeout(context.Background(), 400*time.Millisecond)
+	got, _, err := client.SendMessage(ctx, MsgGetReaderConfig, nil)
+	cancel()
+	_ = client.Close()
+	cConn.Close()
+	pConn.Close()
+	select {
+	case <-connDone:
+	case <-time.After(3 * time.Second):
+	}
+	return err == nil && int(got) == typ
+}
+
 func TestVerifC06(t *testing.T) {
 	lines, w, done := verifIO(t)
 	defer done()
 	if len(lines) > 0 && lines[0] == "probe" {
 		// what newMessage puts into a fresh message (recorded, not judged)
-		fmt.Fprintf(w, "probe prestamp=%d\n", NewHdrOnlyMsg(MsgKeepAliveAck).version)
+		never := []string{}
+		for _, typ := range []int{61, 62, 63} {
+			if !c06Delivered(typ) {
+				never = append(never, strconv.Itoa(typ))
+			}
+		}
+		// control: an ordinary type must be delivered, or the probe itself is broken
+		fmt.Fprintf(w, "probe prestamp=%d neverreply=%s control=%v\n", NewHdrOnlyMsg(MsgKeepAliveAck).version,
+			strings.Join(never, ","), c06Delivered(12))
 		lines = lines[1:]
 	}
 	out := make([]string, len(lines))
-	const workers = 8
+	const workers = 16
 	var wg sync.WaitGroup
 	next := make(chan int)
 	for k := 0; k < workers; k++ {
